@@ -108,14 +108,17 @@ func (o Outcome) String() string {
 }
 
 type S struct {
-	mu       sync.Mutex
-	threads  []*Thread
-	current  *Thread
-	awake    int
-	idle     chan struct{}
-	aborting bool
-	runaway  bool
-	fatal    *Fatal
+	// ClockFrozen: every reading of the clock returns the same instant (a coarse clock read twice within one
+	// tick); otherwise each reading is 1 microsecond later than the previous one.
+	ClockFrozen bool
+	mu          sync.Mutex
+	threads     []*Thread
+	current     *Thread
+	awake       int
+	idle        chan struct{}
+	aborting    bool
+	runaway     bool
+	fatal       *Fatal
 
 	mutexOwner map[interface{}]*Thread
 	rwWriter   map[interface{}]*Thread
@@ -485,7 +488,9 @@ func (s *S) WGWait(w interface{}) {
 // the previous one by step ns).
 func (s *S) Now() time.Time {
 	s.mu.Lock()
-	s.clock += 1000
+	if !s.ClockFrozen {
+		s.clock += 1000
+	}
 	c := s.clock
 	s.mu.Unlock()
 	return time.Unix(0, c)
